@@ -123,6 +123,23 @@ func streamBCD(c *ctx) {
 		w.Emit("bcd-enc "+cases.Hex(db), bcdEnc(db), "enc/long-bad-near-end")
 		w.Emit("bcd-enc "+cases.Hex(ds), bcdEnc(ds), "enc/long-valid-after-failure")
 	}
+	// every length 1..16 x every nibble position x every non-decimal nibble value, all other nibbles decimal
+	for n := 1; n <= 16; n++ {
+		for pos := 0; pos < 2*n; pos++ {
+			for bad := 10; bad < 16; bad++ {
+				bs := make([]byte, n)
+				for j := range bs {
+					bs[j] = byte(c.r.Intn(10)<<4 | c.r.Intn(10))
+				}
+				if pos%2 == 0 {
+					bs[pos/2] = bs[pos/2]&0x0f | byte(bad)<<4
+				} else {
+					bs[pos/2] = bs[pos/2]&0xf0 | byte(bad)
+				}
+				w.Emit("bcd-dec "+cases.Hex(bs), bcdDec(bs), "dec/one-bad-nibble-every-position")
+			}
+		}
+	}
 	for i := 0; i < 20000*c.scale; i++ {
 		n := 3 + c.r.Intn(10)
 		bs := make([]byte, n)
@@ -142,5 +159,5 @@ func streamBCD(c *ctx) {
 		}
 		w.Emit("bcd-dec "+cases.Hex(bs), bcdDec(bs), tag)
 	}
-	w.Notes = append(w.Notes, fmt.Sprintf("encode: exhaustive over all strings of 0..%d symbols from a 12-symbol alphabet; decode: exhaustive over all byte slices of length 0..2", maxLen))
+	w.Notes = append(w.Notes, fmt.Sprintf("encode: exhaustive over all strings of 0..%d symbols from a 12-symbol alphabet; decode: exhaustive over all byte slices of length 0..2; lengths 1..16 with one non-decimal nibble at every position", maxLen))
 }
